@@ -12,12 +12,16 @@ func init() {
 			c.WatermarkConversions("C02", s, "prop")
 			c.RecordBeforeApprove("C02", s, "prop")
 			c.StoreCommit("C03", s)
+			// the histories quantified over include restarts: the record must survive them
+			c.SyncOption("C03")
+			c.WhoWrites("C03")
 			c.BadgerBufferDiscipline("C11")
 			c.EntryAlignment("C02", s, "prop")
 			c.StateStoreDiscipline("C02", s, "prop")
 			c.RulerLocking("C02")
 			c.SignIffApproved("C02", map[string]bool{"SignBeaconProposal": true})
 			c.RulerKeyAgreement("C02")
+			c.RulerPositions("C02")
 			c.SigningRootProvenance("C02")
 		},
 		Explanation: "Same scheme as C01 in one dimension: APPROVED for a proposal is cut by [stored slot < 0] or [slot > stored slot], the slot is bounded by MaxInt64 before it is narrowed, the new slot is committed before APPROVED leaves, the record is fetched and stored under the request's own key with the proposal action, and only APPROVED requests are signed. See DESIGN.md §5 C02.",
